@@ -118,7 +118,7 @@ Proof.
   unfold reset_var_name. cbn [fst snd]. split; [reflexivity|]. split; [reflexivity|]. split; [reflexivity|]. exists d. auto.
 Qed.
 
-Lemma tw_add_sim c sm sm' t r r' s s' : Rn c s s' -> Rn c (tw_add sm t r s) (tw_add sm' t r' s').
+Lemma tw_add_sim c sm sm' t x r r' s s' : Rn c s s' -> Rn c (tw_add sm t x r s) (tw_add sm' t x r' s').
 Proof.
   intro H. destruct s as [[o n l cl a e] loc], s' as [[o' n' l' cl' a' e'] loc']. open_R.
   unfold tw_add. cbn [fst snd w_err]. destruct e'.
@@ -167,7 +167,7 @@ Ltac sim1 :=
   | |- Rn _ _ _ (tw_close _) (tw_close _) => apply tw_close_sim
   | |- Rn _ _ _ (tw_write_add _ _ _ _) (tw_write_add _ _ _ _) => apply tw_write_add_sim
   | |- Rn _ _ _ (tw_write_indent_add _ _ _ _) (tw_write_indent_add _ _ _ _) => apply tw_write_indent_add_sim
-  | |- Rn _ _ _ (tw_add _ _ _ _) (tw_add _ _ _ _) => apply tw_add_sim
+  | |- Rn _ _ _ (tw_add _ _ _ _ _) (tw_add _ _ _ _ _) => apply tw_add_sim
   | |- Rn _ _ _ (fail_with _ _) (fail_with _ _) => apply fail_with_sim
   | |- Rn _ _ _ (set_unesc _ _) (set_unesc _ _) => apply set_unesc_sim
   | |- Rn _ _ _ (write_formatted_text _ _ _) (write_formatted_text _ _ _) => apply write_formatted_text_sim
@@ -398,7 +398,7 @@ Proof.
   destruct (wr_quiet x st He) as [H1 H2]. unfold wr in *. unfold quiet. rewrite H1, H2. auto.
 Qed.
 
-Lemma tw_add_quiet sm t r st : quiet st -> quiet (tw_add sm t r st) /\ snd (tw_add sm t r st) = snd st.
+Lemma tw_add_quiet sm t x r st : quiet st -> quiet (tw_add sm t x r st) /\ snd (tw_add sm t x r st) = snd st.
 Proof.
   destruct st as [[o n l c a e] loc]. unfold quiet, tw_add. cbn. intros [-> Hs]. destruct sm; cbn; auto.
 Qed.
@@ -406,7 +406,7 @@ Qed.
 Lemma tw_write_add_quiet sm x t st : quiet st -> quiet (tw_write_add sm x t st) /\ snd (tw_write_add sm x t st) = snd st.
 Proof.
   intro H. unfold tw_write_add. destruct (tw_wr_quiet x st H) as [H1 H2]. fold (tw_wr x st).
-  destruct (tw_add_quiet sm t (fst (tw_write x st)) (tw_wr x st) H1) as [H3 H4]. split; [exact H3|]. rewrite H4. exact H2.
+  destruct (tw_add_quiet sm t x (fst (tw_write x st)) (tw_wr x st) H1) as [H3 H4]. split; [exact H3|]. rewrite H4. exact H2.
 Qed.
 
 Lemma fold_code_quiet sm (l : list token) : forall st, quiet st ->
@@ -500,7 +500,7 @@ Qed.
 Lemma tw_write_indent_add_quiet sm x t st : quiet st -> quiet (tw_write_indent_add sm x t st) /\ snd (tw_write_indent_add sm x t st) = snd st.
 Proof.
   intro H. unfold tw_write_indent_add. destruct (tw_wri_quiet x st H) as [H1 H2]. fold (tw_wri x st).
-  destruct (tw_add_quiet sm t (fst (tw_write_indent x st)) (tw_wri x st) H1) as [H3 H4]. split; [exact H3|]. rewrite H4. exact H2.
+  destruct (tw_add_quiet sm t x (fst (tw_write_indent x st)) (tw_wri x st) H1) as [H3 H4]. split; [exact H3|]. rewrite H4. exact H2.
 Qed.
 
 Lemma fold_imports_quiet (l : list bytes) : forall st, quiet st ->
